@@ -119,6 +119,20 @@ type c10Proc struct {
 	r  *c10Run
 }
 
+// c10GateErr: an error whose Error() — user code the SDK calls while formatting — parks on a gate when it is called
+// from one of the script's call goroutines (observation `E`).
+type c10GateErr struct {
+	r   *c10Run
+	msg string
+}
+
+func (e *c10GateErr) Error() string {
+	if k, ok := e.r.callOf(); ok {
+		e.r.block(k, "E")
+	}
+	return e.msg
+}
+
 func (p *c10Proc) OnStart(context.Context, ReadWriteSpan) {}
 func (p *c10Proc) OnEnd(s ReadOnlySpan) {
 	if s.SpanContext().SpanID() != p.r.target {
@@ -228,22 +242,188 @@ func c10RunSched(task string, pgate, parentRO bool, lim [6]int, name string, ops
 	}
 	obs := make([]string, 0, len(ops))
 	nTr := 0
-	// synchronous ops run under a watchdog: a span method that blocks (mutex held across a gate) is an observation
-	guarded := func(f func()) string {
-		done := make(chan struct{})
+	// watchdog: a span method that blocks for good (mutex held across a gate) is an observation (`H`)
+	guarded := func(f func() string) string {
+		done := make(chan string, 1)
 		r.wg.Add(1)
-		go func() { defer r.wg.Done(); f(); close(done) }()
+		go func() { defer r.wg.Done(); done <- f() }()
 		select {
-		case <-done:
-			return "-"
+		case o := <-done:
+			return o
 		case <-time.After(c10Wait):
 			hung = true
 			return "H"
 		}
 	}
+	// startCall runs body in its own goroutine as call k (End, gated RecordError, panicking End)
+	startCall := func(k int, body func(), panics bool) {
+		r.mu.Lock()
+		r.ev[k] = make(chan string, 16)
+		r.release[k] = make(chan struct{})
+		ev := r.ev[k]
+		r.mu.Unlock()
+		state[k] = "?"
+		r.wg.Add(1)
+		go func() {
+			defer r.wg.Done()
+			g := c10Gid()
+			r.mu.Lock()
+			r.calls[g] = k
+			r.mu.Unlock()
+			res := "r"
+			func() {
+				defer func() {
+					if recover() != nil && !panics {
+						res = "X" // a panic inside a span method is an observation
+					}
+				}()
+				body()
+			}()
+			r.mu.Lock()
+			delete(r.calls, g)
+			r.mu.Unlock()
+			select {
+			case ev <- res:
+			case <-r.open:
+			}
+		}()
+	}
+	endAt := func(k int) trace.SpanEndOption {
+		return trace.WithTimestamp(c10Base.Add(time.Duration(k) * time.Second))
+	}
+	// the span methods called synchronously by the script
+	runSync := func(op []string) string {
+		switch op[0] {
+		case "ir":
+			return vC04B(span.IsRecording())
+		case "ch":
+			dec := "S"
+			if len(op) > 1 {
+				dec = op[1]
+			}
+			_, child := tr.Start(ctx, "child:"+dec)
+			child.End()
+		case "sa":
+			span.SetAttributes(vC04ParseKVs(op[1])...)
+		case "ev":
+			if kvs := vC04ParseKVs(op[2]); kvs == nil {
+				span.AddEvent(vUnhex(op[1]))
+			} else {
+				span.AddEvent(vUnhex(op[1]), trace.WithAttributes(kvs...))
+			}
+		case "ln":
+			span.AddLink(trace.Link{SpanContext: vC04ParseSC(op[1]), Attributes: vC04ParseKVs(op[2])})
+		case "re":
+			var err error
+			if op[1] != "-" {
+				err = errors.New(vUnhex(op[1]))
+			}
+			if kvs := vC04ParseKVs(op[2]); kvs == nil {
+				span.RecordError(err)
+			} else {
+				span.RecordError(err, trace.WithAttributes(kvs...))
+			}
+		case "st":
+			c, _ := strconv.Atoi(op[1])
+			span.SetStatus(codes.Code(c), vUnhex(op[2]))
+		case "nm":
+			span.SetName(vUnhex(op[1]))
+		default:
+			panic("bad op " + op[0])
+		}
+		return "-"
+	}
+	isSync := func(op []string) bool {
+		switch op[0] {
+		case "ir", "ch", "sa", "ev", "ln", "re", "st", "nm":
+			return true
+		}
+		return false
+	}
+	// A call parked inside Error() sits INSIDE a critical section of the span (unchanged tree: RecordError and the
+	// panic path of End format under s.mu). Exactly one more op may then be issued: it is started, given a bounded
+	// head start (so that, should the mutex NOT be held, it really gets ahead) and not awaited — its observation is
+	// `~` whatever happened; what happened shows in the final snapshots only. Then the gate must be released.
+	parkedE := 0
+	var pendFinish func() string
+	const headStart = 25 * time.Millisecond
 	for _, op := range ops {
 		if hung {
 			break
+		}
+		if parkedE != 0 {
+			k := -1
+			if op[0] == "g" {
+				k, _ = strconv.Atoi(op[1])
+			}
+			switch {
+			case k == parkedE:
+				r.mu.Lock()
+				rel := r.release[k]
+				r.mu.Unlock()
+				o := "H"
+				select {
+				case rel <- struct{}{}:
+					o = await(k)
+				case <-time.After(c10Wait):
+					hung = true
+				}
+				parkedE = 0
+				if pendFinish != nil {
+					o += "+" + pendFinish()
+					pendFinish = nil
+				}
+				obs = append(obs, o)
+			case pendFinish == nil && op[0] == "e":
+				k2, _ := strconv.Atoi(op[1])
+				if _, dup := state[k2]; dup {
+					obs = append(obs, "!")
+					break
+				}
+				startCall(k2, func() { span.End(endAt(k2)) }, false)
+				r.mu.Lock()
+				ev := r.ev[k2]
+				r.mu.Unlock()
+				early := ""
+				select {
+				case early = <-ev:
+					state[k2] = early
+				case <-time.After(headStart):
+				}
+				pendFinish = func() string {
+					if early != "" {
+						return early
+					}
+					return await(k2)
+				}
+				obs = append(obs, "~")
+			case pendFinish == nil && isSync(op):
+				done := make(chan string, 1)
+				r.wg.Add(1)
+				opc := op
+				go func() { defer r.wg.Done(); done <- runSync(opc) }()
+				early := ""
+				select {
+				case early = <-done:
+				case <-time.After(headStart):
+				}
+				pendFinish = func() string {
+					if early != "" {
+						return early
+					}
+					select {
+					case o := <-done:
+						return o
+					case <-time.After(c10Wait):
+						hung = true
+						return "H"
+					}
+				}
+				obs = append(obs, "~")
+			default:
+				obs = append(obs, "!")
+			}
+			continue
 		}
 		o := "-"
 		switch op[0] {
@@ -253,36 +433,26 @@ func c10RunSched(task string, pgate, parentRO bool, lim [6]int, name string, ops
 				o = "X"
 				break
 			}
-			r.mu.Lock()
-			r.ev[k] = make(chan string, 16)
-			r.release[k] = make(chan struct{})
-			ev := r.ev[k]
-			r.mu.Unlock()
-			r.wg.Add(1)
-			go func() {
-				defer r.wg.Done()
-				g := c10Gid()
-				r.mu.Lock()
-				r.calls[g] = k
-				r.mu.Unlock()
-				res := "r"
-				func() {
-					defer func() {
-						if recover() != nil {
-							res = "X" // a panic inside End is an observation
-						}
-					}()
-					span.End(trace.WithTimestamp(c10Base.Add(time.Duration(k) * time.Second)))
-				}()
-				r.mu.Lock()
-				delete(r.calls, g)
-				r.mu.Unlock()
-				select {
-				case ev <- res:
-				case <-r.open:
-				}
-			}()
+			startCall(k, func() { span.End(endAt(k)) }, false)
 			o = await(k)
+		case "rE", "pe":
+			k, _ := strconv.Atoi(op[1])
+			if _, dup := state[k]; dup {
+				o = "X"
+				break
+			}
+			gerr := &c10GateErr{r: r, msg: vUnhex(op[2])}
+			if op[0] == "rE" {
+				startCall(k, func() { span.RecordError(gerr) }, false)
+			} else {
+				startCall(k, func() {
+					defer span.End(endAt(k))
+					panic(gerr)
+				}, true)
+			}
+			if o = await(k); o == "E" {
+				parkedE = k
+			}
 		case "g":
 			k, _ := strconv.Atoi(op[1])
 			if st := state[k]; st == "T" || strings.HasPrefix(st, "P") {
@@ -296,25 +466,12 @@ func c10RunSched(task string, pgate, parentRO bool, lim [6]int, name string, ops
 					o = "H"
 				}
 			}
-		case "ir":
-			var v bool
-			if o = guarded(func() { v = span.IsRecording() }); o == "-" {
-				o = vC04B(v)
-			}
-		case "ch":
-			o = guarded(func() {
-				dec := "S"
-				if len(op) > 1 {
-					dec = op[1]
-				}
-				_, child := tr.Start(ctx, "child:"+dec)
-				child.End()
-			})
 		case "ot":
 			nTr++
-			o = guarded(func() {
+			o = guarded(func() string {
 				_ = tp.Tracer("t" + strconv.Itoa(nTr%3))
 				_ = tp.ForceFlush(context.Background())
+				return "-"
 			})
 		case "rg":
 			p, _ := strconv.Atoi(op[1])
@@ -332,43 +489,26 @@ func c10RunSched(task string, pgate, parentRO bool, lim [6]int, name string, ops
 			}
 			tp.UnregisterSpanProcessor(procs[p])
 			registered[p] = false
-		case "sa":
-			o = guarded(func() { span.SetAttributes(vC04ParseKVs(op[1])...) })
-		case "ev":
-			kvs := vC04ParseKVs(op[2])
-			o = guarded(func() {
-				if kvs == nil {
-					span.AddEvent(vUnhex(op[1]))
-				} else {
-					span.AddEvent(vUnhex(op[1]), trace.WithAttributes(kvs...))
-				}
-			})
-		case "ln":
-			o = guarded(func() {
-				span.AddLink(trace.Link{SpanContext: vC04ParseSC(op[1]), Attributes: vC04ParseKVs(op[2])})
-			})
-		case "re":
-			var err error
-			if op[1] != "-" {
-				err = errors.New(vUnhex(op[1]))
-			}
-			kvs := vC04ParseKVs(op[2])
-			o = guarded(func() {
-				if kvs == nil {
-					span.RecordError(err)
-				} else {
-					span.RecordError(err, trace.WithAttributes(kvs...))
-				}
-			})
-		case "st":
-			c, _ := strconv.Atoi(op[1])
-			o = guarded(func() { span.SetStatus(codes.Code(c), vUnhex(op[2])) })
-		case "nm":
-			o = guarded(func() { span.SetName(vUnhex(op[1])) })
 		default:
-			panic("bad op " + op[0])
+			opc := op
+			o = guarded(func() string { return runSync(opc) })
 		}
 		obs = append(obs, o)
+	}
+	if parkedE != 0 && !hung {
+		// a script must not end with a call parked inside a critical section: implicit release (the driver does the same)
+		r.mu.Lock()
+		rel := r.release[parkedE]
+		r.mu.Unlock()
+		select {
+		case rel <- struct{}{}:
+			await(parkedE)
+		case <-time.After(c10Wait):
+			hung = true
+		}
+		if pendFinish != nil {
+			pendFinish()
+		}
 	}
 	// final observations, taken while End calls may still be blocked at their gates
 	r.mu.Lock()
@@ -376,8 +516,9 @@ func c10RunSched(task string, pgate, parentRO bool, lim [6]int, name string, ops
 	r.mu.Unlock()
 	fin := []string{"0 0 0"}
 	if !hung {
-		if guarded(func() {
+		if guarded(func() string {
 			fin[0] = fmt.Sprintf("%s %d %d", vC04B(span.IsRecording()), rs.ChildSpanCount(), c10EtIdx(rs.EndTime()))
+			return "-"
 		}) == "H" {
 			obs = append(obs, "H")
 		}
@@ -444,10 +585,37 @@ func c10GenSched(r *vRand) (string, bool, bool, [6]int, string, [][]string) {
 				ops = append(ops, []string{"rg", strconv.Itoa(p)})
 				reg[p] = true
 			}
-		case x < 72 && nextE <= 4:
+		case x < 66 && nextE <= 4:
 			ops = append(ops, []string{"e", strconv.Itoa(nextE)})
 			blocked = append(blocked, nextE)
 			nextE++
+		case x < 69 && nextE <= 6:
+			// user code parked INSIDE a critical section: gated Error() of RecordError / of a panicking End; at most one
+			// op while it is parked, then the release
+			k := nextE
+			nextE++
+			kind := vPick(r, []string{"rE", "rE", "pe"})
+			ops = append(ops, []string{kind, strconv.Itoa(k), vHex(vValidStr(r, 2))})
+			switch y := r.Intn(24); { // one op in a third of the cases (each costs the head start on the unchanged tree)
+			case y < 4 && nextE <= 6:
+				ops = append(ops, []string{"e", strconv.Itoa(nextE)})
+				blocked = append(blocked, nextE)
+				nextE++
+			case y < 6:
+				op := vC04GenOp(r, 0)
+				if op[0] == "end" {
+					op = []string{"ir"}
+				}
+				ops = append(ops, op)
+			case y < 7:
+				ops = append(ops, []string{"ch", vPick(r, []string{"S", "D"})})
+			case y < 8:
+				ops = append(ops, []string{"ir"})
+			}
+			ops = append(ops, []string{"g", strconv.Itoa(k)})
+			if kind == "pe" {
+				blocked = append(blocked, k)
+			}
 		default:
 			if len(blocked) > 0 {
 				ops = append(ops, []string{"g", strconv.Itoa(vPick(r, blocked))})
